@@ -39,6 +39,9 @@ NestedScripts(amt) ==
   ELSE UNION { { <<[a |-> "loan", x |-> n, sub |-> <<[a |-> "repay", x |-> rn]>>], [a |-> "repay", x |-> ro]>> :
                    rn \in {Payback(st, n), Payback(st, n) - 1},
                    ro \in { x \in {Payback(st, amt), Payback(st, amt) - 1, amt} : x >= 1 } } : n \in LoanAmt }
+       \* a deposit made after the inner loan has completed is still inside the outer loan
+       \cup { <<[a |-> "loan", x |-> n, sub |-> <<[a |-> "repay", x |-> Payback(st, n)]>>], [a |-> "deposit", x |-> d]>> :
+                 n \in LoanAmt, d \in {3, Payback(st, amt)} }
 
 LoanTx(amt, sub) ==
   LET script == <<[a |-> "loan", x |-> amt, sub |-> sub]>>
